@@ -151,6 +151,23 @@ def apply_common_rules(text, ed, rules, log, where):
                         log.append(("R7", where, text[t.start:toks[l].start].strip()))
                         i = e + 1; continue
             i += 1
+    if "R14" in rules:
+        for i, t in enumerate(toks):
+            if t.kind == "ident" and t.text in ("from_be_bytes", "from_le_bytes"):
+                p1 = prev_code(toks, i); p2 = prev_code(toks, p1) if p1 is not None else None
+                n1 = next_code(toks, i)
+                if p1 is None or p2 is None or toks[p1].text != "::" or toks[p2].text not in _INT_TYPES or toks[n1].text != "(":
+                    continue
+                e = match_forward(toks, n1)
+                a1 = next_code(toks, n1)
+                pre = "be" if t.text == "from_be_bytes" else "le"
+                if toks[a1].text == "[":
+                    a2 = match_forward(toks, a1)
+                    ed.replace(toks[p2].start, toks[a1].end, f"{pre}_{toks[p2].text}(")
+                    ed.replace(toks[a2].start, toks[e].end, ")")
+                else:
+                    ed.replace(toks[p2].start, toks[n1].end, f"{pre}_{toks[p2].text}_arr(")
+                log.append(("R14", where, text[toks[p2].start:toks[e].end][:80]))
     if "R9" in rules:
         _rule_r9(text, toks, ed, log, where)
     if "R10" in rules:
